@@ -1,6 +1,7 @@
 package props
 
 import (
+	"sort"
 	"fmt"
 	"go/constant"
 	"go/token"
@@ -264,6 +265,15 @@ func (h H) errPathsMode(fn *ssa.Function, c *ssa.Call, e ssa.Value, errIdx int, 
 	// env: value of each phi, of each local cell (Alloc) and of each load of
 	// a local cell, along the path being walked
 	type env map[ssa.Value]ssa.Value
+	type facts map[ssa.Value]bool // nil-ness established by a branch taken earlier on the path: true = not nil
+	withFact := func(nn facts, v ssa.Value, nonNil bool) facts {
+		m := facts{}
+		for k, x := range nn {
+			m[k] = x
+		}
+		m[v] = nonNil
+		return m
+	}
 	resolve := func(v ssa.Value, en env) ssa.Value {
 		for i := 0; i < 8; i++ {
 			nv, ok := en[v]
@@ -277,10 +287,23 @@ func (h H) errPathsMode(fn *ssa.Function, c *ssa.Call, e ssa.Value, errIdx int, 
 	type key2 struct {
 		b, from *ssa.BasicBlock
 		mode    int
+		facts   string
+	}
+	factKey := func(nn facts) string {
+		var ks []string
+		for v, nonNil := range nn {
+			ks = append(ks, fmt.Sprintf("%s@%p=%v", v.Name(), v, nonNil))
+		}
+		sort.Strings(ks)
+		return strings.Join(ks, ",")
 	}
 	seen2 := map[key2]bool{}
-	var walk func(b *ssa.BasicBlock, start int, mode int, from *ssa.BasicBlock, en env)
-	enter := func(from, to *ssa.BasicBlock, mode int, en env) {
+	var walk func(b *ssa.BasicBlock, start int, mode int, from *ssa.BasicBlock, en env, nn facts)
+	enter := func(from, to *ssa.BasicBlock, mode int, en env, nn facts) {
+		nn2 := facts{}
+		for k, v := range nn {
+			nn2[k] = v
+		}
 		ne := env{}
 		for k, v := range en {
 			ne[k] = v
@@ -298,14 +321,21 @@ func (h H) errPathsMode(fn *ssa.Function, c *ssa.Call, e ssa.Value, errIdx int, 
 			}
 			break
 		}
-		walk(to, 0, mode, from, ne)
+		walk(to, 0, mode, from, ne, nn2)
 	}
-	walk = func(b *ssa.BasicBlock, start int, mode int, from *ssa.BasicBlock, en env) {
+	walk = func(b *ssa.BasicBlock, start int, mode int, from *ssa.BasicBlock, en env, nn facts) {
 		if bad != "" {
 			return
 		}
 		if start == 0 {
-			k := key2{b, from, mode}
+			// entering b computes its values anew: what an earlier branch found
+			// out about them (a previous loop iteration) no longer holds
+			for v := range nn {
+				if in, ok := v.(ssa.Instruction); ok && in.Block() == b {
+					delete(nn, v)
+				}
+			}
+			k := key2{b, from, mode, factKey(nn)}
 			if seen2[k] {
 				return
 			}
@@ -360,21 +390,35 @@ func (h H) errPathsMode(fn *ssa.Function, c *ssa.Call, e ssa.Value, errIdx int, 
 					}
 				} else if isNilConst(r) {
 					bad = fmt.Sprintf("return at %s reports success although this step failed", h.pos(x))
-				} else if lenient && !errDerived(r, e, 0) && isRawErrorResult(r) {
+				} else if lenient && !errDerived(r, e, 0) && isRawErrorResult(r) && !nn[r] {
 					// some other operation's error result: it may well be nil
 					bad = fmt.Sprintf("return at %s hands on another operation's error (possibly nil) although this step failed", h.pos(x))
-				} else if !lenient && !errDerived(r, e, 0) {
-					switch r.(type) {
-					case *ssa.Call, *ssa.MakeInterface, *ssa.UnOp:
-						// a wrapped or replacement error
-					default:
-						bad = fmt.Sprintf("return at %s hands on something else than this step's error", h.pos(x))
-					}
+				} else if !lenient && !errDerived(r, e, 0) && !h.P.NeverNil(r, 0) && !nn[r] {
+					// a replacement error must be one that cannot be nil (a constructed
+					// or sentinel error, or one a branch on this path found non-nil)
+					bad = fmt.Sprintf("return at %s hands on something else than this step's error (possibly nil)", h.pos(x))
 				}
 				return
 			case *ssa.Panic:
 				return
 			case *ssa.If:
+				// a flag whose value along this path is known (`done, err := phase(); if done {…}`)
+				{
+					cv, neg := x.Cond, false
+					for k := 0; k < 3; k++ {
+						if u, ok := cv.(*ssa.UnOp); ok && u.Op == token.NOT {
+							cv, neg = u.X, !neg
+						}
+					}
+					if c, ok := resolve(cv, en).(*ssa.Const); ok && c.Value != nil && c.Value.Kind() == constant.Bool {
+						if constant.BoolVal(c.Value) != neg {
+							enter(b, b.Succs[0], mode, en, nn)
+						} else {
+							enter(b, b.Succs[1], mode, en, nn)
+						}
+						return
+					}
+				}
 				// a nil test whose operand is, along this path, the error itself
 				if bo, ok := x.Cond.(*ssa.BinOp); ok && (bo.Op == token.EQL || bo.Op == token.NEQ) && (isNilConst(bo.X) || isNilConst(bo.Y)) {
 					opnd := bo.X
@@ -387,13 +431,26 @@ func (h H) errPathsMode(fn *ssa.Function, c *ssa.Call, e ssa.Value, errIdx int, 
 							errSucc = b.Succs[0]
 						}
 						if mode == 0 {
-							enter(b, errSucc, 1, en)
+							enter(b, errSucc, 1, en, nn)
 						} else {
 							// e is known non-nil here: only the failure edge is feasible
-							enter(b, errSucc, mode, en)
+							enter(b, errSucc, mode, en, nn)
 						}
 						return
-					} else if isNilConst(rv) || h.P.NeverNil(rv, 0) {
+					} else if known, has := nn[rv]; has || isNilConst(rv) || h.P.NeverNil(rv, 0) {
+						if has && !isNilConst(rv) && !h.P.NeverNil(rv, 0) {
+							// the same value was tested before on this path
+							nilSucc, nonNilSucc := b.Succs[0], b.Succs[1]
+							if bo.Op == token.NEQ {
+								nilSucc, nonNilSucc = nonNilSucc, nilSucc
+							}
+							if known {
+								enter(b, nonNilSucc, mode, en, nn)
+							} else {
+								enter(b, nilSucc, mode, en, nn)
+							}
+							return
+						}
 						// along this path the tested value is fixed (a result merged by a phi,
 						// a constructor's value): one side only is feasible
 						nilSucc, nonNilSucc := b.Succs[0], b.Succs[1]
@@ -401,9 +458,9 @@ func (h H) errPathsMode(fn *ssa.Function, c *ssa.Call, e ssa.Value, errIdx int, 
 							nilSucc, nonNilSucc = nonNilSucc, nilSucc
 						}
 						if isNilConst(rv) {
-							enter(b, nilSucc, mode, en)
+							enter(b, nilSucc, mode, en, nn)
 						} else {
-							enter(b, nonNilSucc, mode, en)
+							enter(b, nonNilSucc, mode, en, nn)
 						}
 						return
 					}
@@ -422,7 +479,7 @@ func (h H) errPathsMode(fn *ssa.Function, c *ssa.Call, e ssa.Value, errIdx int, 
 						if trueIsErr {
 							errSucc = b.Succs[0]
 						}
-						enter(b, errSucc, 1, en)
+						enter(b, errSucc, 1, en, nn)
 						return
 					}
 				}
@@ -430,7 +487,7 @@ func (h H) errPathsMode(fn *ssa.Function, c *ssa.Call, e ssa.Value, errIdx int, 
 					// `if os.IsNotExist(err)`: that one error is handled on the true edge
 					if cc, ok := x.Cond.(*ssa.Call); ok {
 						if f := cc.Common().StaticCallee(); f != nil && f.Pkg != nil && f.Pkg.Pkg.Path() == "os" && strings.HasPrefix(f.Name(), "Is") && len(cc.Common().Args) == 1 && errDerived(cc.Common().Args[0], e, 0) {
-							enter(b, b.Succs[1], 0, en)
+							enter(b, b.Succs[1], 0, en, nn)
 							return
 						}
 					}
@@ -442,16 +499,36 @@ func (h H) errPathsMode(fn *ssa.Function, c *ssa.Call, e ssa.Value, errIdx int, 
 						if bo.Op == token.EQL {
 							errSucc, okSucc = okSucc, errSucc
 						}
-						enter(b, errSucc, 2, en)
-						enter(b, okSucc, 0, en)
+						opnd := bo.X
+						if isNilConst(bo.X) {
+							opnd = bo.Y
+						}
+						rv := resolve(opnd, en)
+						enter(b, errSucc, 2, en, withFact(nn, rv, true))
+						enter(b, okSucc, 0, en, withFact(nn, rv, false))
 						return
 					}
 				}
-				enter(b, b.Succs[0], mode, en)
-				enter(b, b.Succs[1], mode, en)
+				// any other nil test: remember its outcome for later tests of the same value
+				if bo, ok := x.Cond.(*ssa.BinOp); ok && (bo.Op == token.NEQ || bo.Op == token.EQL) && (isNilConst(bo.Y) || isNilConst(bo.X)) {
+					opnd := bo.X
+					if isNilConst(bo.X) {
+						opnd = bo.Y
+					}
+					rv := resolve(opnd, en)
+					nonNilSucc, nilSucc := b.Succs[0], b.Succs[1]
+					if bo.Op == token.EQL {
+						nonNilSucc, nilSucc = nilSucc, nonNilSucc
+					}
+					enter(b, nonNilSucc, mode, en, withFact(nn, rv, true))
+					enter(b, nilSucc, mode, en, withFact(nn, rv, false))
+					return
+				}
+				enter(b, b.Succs[0], mode, en, nn)
+				enter(b, b.Succs[1], mode, en, nn)
 				return
 			case *ssa.Jump:
-				enter(b, b.Succs[0], mode, en)
+				enter(b, b.Succs[0], mode, en, nn)
 				return
 			}
 		}
@@ -462,7 +539,7 @@ func (h H) errPathsMode(fn *ssa.Function, c *ssa.Call, e ssa.Value, errIdx int, 
 			idx = i
 		}
 	}
-	walk(c.Block(), idx+1, 0, nil, env{})
+	walk(c.Block(), idx+1, 0, nil, env{}, facts{})
 	return bad
 }
 
